@@ -760,6 +760,106 @@ Proof.
   - reflexivity.
 Qed.
 
+(* ---------- hash_patch: the lines BufReader::split yields ---------- *)
+Definition split_lines_of (ps : list str) : list str := match last ps [] with [] => removelast ps | _ => ps end.
+Lemma split_lines_is s : split_lines s = split_lines_of (split_on 10 s).
+Proof. reflexivity. Qed.
+Lemma mem_rev_nl l : mem 10 (List.rev l) = mem 10 l.
+Proof.
+  induction l as [|x l IH]; [reflexivity|]. cbn [List.rev mem]. rewrite mem_app', IH. cbn [mem]. rewrite orb_false_r. apply orb_comm.
+Qed.
+Lemma last_app_nonnil {A} (a b : list A) d : b <> [] -> last (a ++ b) d = last b d.
+Proof. intros Hb. induction a as [|x a IH]; [reflexivity|]. cbn [app last]. destruct (a ++ b) eqn:E; [apply app_eq_nil in E as [_ ->]; congruence|]. exact IH. Qed.
+Lemma split_on_nonl l : mem 10 l = false -> split_on 10 l = [l].
+Proof.
+  induction l as [|x l IH]; cbn [split_on mem]; intros H; [reflexivity|].
+  apply orb_false_elim in H as [H1 H2]. rewrite H1, IH by auto. reflexivity.
+Qed.
+(* feeding a chunk: the completed lines, and the rest of the text still splits the same way *)
+Lemma feed_spec : forall c cur ls p, mem 10 cur = false -> feed cur c = (ls, p) ->
+  mem 10 p = false /\ forall rest, split_on 10 (List.rev cur ++ c ++ rest) = ls ++ split_on 10 (List.rev p ++ rest).
+Proof.
+  induction c as [|x c IH]; intros cur ls p Hc; cbn [feed].
+  - intros [= <- <-]. split; auto.
+  - destruct (N.eqb_spec x 10) as [->|Hx].
+    + destruct (feed [] c) as [ls' p'] eqn:E. intros [= <- <-].
+      destruct (IH [] ls' p' eq_refl E) as (Hp & Hs). split; auto. intros rest.
+      cbn [app]. rewrite split_on_nl by (rewrite mem_rev_nl; auto). rewrite frev_eq. cbn [app]. f_equal.
+      specialize (Hs rest). cbn [List.rev app] in Hs. exact Hs.
+    + intros E. assert (mem 10 (x :: cur) = false) as Hc'.
+      { cbn [mem]. apply orb_false_intro; auto. apply N.eqb_neq. auto. }
+      destruct (IH (x :: cur) ls p Hc' E) as (Hp & Hs). split; auto. intros rest.
+      specialize (Hs rest). cbn [List.rev] in Hs. rewrite <- app_assoc in Hs. cbn [app] in *. exact Hs.
+Qed.
+Definition no_zero_read (evs : list rdev) : Prop := Forall (fun e => e <> EData []) evs.
+Lemma split_lines_app ls s : split_lines_of (ls ++ split_on 10 s) = ls ++ split_lines_of (split_on 10 s).
+Proof.
+  unfold split_lines_of. pose proof (split_on_nonnil 10 s) as N.
+  destruct (split_on 10 s) as [|q qs] eqn:E; [congruence|].
+  rewrite last_app_nonnil by discriminate.
+  destruct (last (q :: qs) []); [rewrite removelast_app by discriminate|]; reflexivity.
+Qed.
+(* without 0-byte reads: exactly the lines of all the bytes, a final unterminated line included *)
+Lemma patch_lines_spec : forall evs cur, no_zero_read evs -> mem 10 cur = false ->
+  patch_lines evs cur = option_map (fun s => split_lines (List.rev cur ++ s)) (read_all evs).
+Proof.
+  induction evs as [|e evs IH]; intros cur Hz Hc.
+  - cbn [patch_lines read_all option_map]. rewrite app_nil_r. unfold split_lines.
+    rewrite split_on_nonl by (rewrite mem_rev_nl; auto).
+    destruct cur as [|x cur]; [reflexivity|]. rewrite frev_eq. cbn [last].
+    destruct (List.rev (x :: cur)) eqn:E; [|reflexivity].
+    apply (f_equal (@List.length N)) in E. rewrite rev_length in E. discriminate.
+  - inversion Hz as [|? ? He Hz']; subst. destruct e as [c| |].
+    + destruct c as [|x c]; [congruence|]. cbn [patch_lines read_all].
+      destruct (feed cur (x :: c)) as [ls p] eqn:E.
+      destruct (feed_spec (x :: c) cur ls p Hc E) as (Hp & Hs).
+      rewrite (IH p Hz' Hp). destruct (read_all evs) as [s|]; [|reflexivity]. cbn [option_map]. f_equal.
+      rewrite !split_lines_is, Hs. symmetry. apply split_lines_app.
+    + cbn [patch_lines read_all]. apply IH; auto.
+    + reflexivity.
+Qed.
+Theorem patch_schedule evs : no_zero_read evs -> hash_patch_pre evs = option_map filter_patch (read_all evs).
+Proof.
+  intros Hz. unfold hash_patch_pre. rewrite (patch_lines_spec evs [] Hz eq_refl).
+  destruct (read_all evs) as [s|]; reflexivity.
+Qed.
+(* a 0-byte read in the middle of a line ends that line and the reading goes on;
+   at a line boundary it ends the stream *)
+Lemma patch_lines_data x a R cur : patch_lines (EData (x :: a) :: R) cur =
+  let (ls, p) := feed cur (x :: a) in option_map (app ls) (patch_lines R p).
+Proof. reflexivity. Qed.
+Lemma patch_lines_zero y p R : patch_lines (EData [] :: R) (y :: p) = option_map (cons (frev (y :: p))) (patch_lines R []).
+Proof. reflexivity. Qed.
+Theorem patch_zero_read_mid_line a b rest : a <> [] -> mem 10 a = false ->
+  hash_patch_pre (EData a :: EData [] :: EData b :: rest) =
+  option_map (fun t => keep_line a ++ t) (hash_patch_pre (EData b :: rest)).
+Proof.
+  intros Ha Hm. unfold hash_patch_pre.
+  destruct a as [|x a]; [congruence|]. rewrite patch_lines_data.
+  destruct (feed [] (x :: a)) as [ls p] eqn:E.
+  destruct (feed_spec (x :: a) [] ls p eq_refl E) as (Hp & Hs).
+  specialize (Hs []). cbn [List.rev app] in Hs. rewrite !app_nil_r in Hs.
+  rewrite split_on_nonl in Hs by auto.
+  assert (ls = [] /\ List.rev p = x :: a) as [-> Hrp].
+  { rewrite split_on_nonl in Hs by (rewrite mem_rev_nl; auto).
+    destruct ls as [|l ls]; [injection Hs as <-; auto|]. destruct ls; discriminate. }
+  destruct p as [|y p]; [discriminate|]. rewrite patch_lines_zero, frev_eq, Hrp.
+  destruct (patch_lines (EData b :: rest) []) as [X|]; reflexivity.
+Qed.
+Lemma feed_ends_nl : forall a cur ls p, feed cur (a ++ [10]) = (ls, p) -> p = [].
+Proof.
+  induction a as [|y a IH]; intros cur ls p; cbn [app feed].
+  - change (10 =? 10) with true. cbv iota. cbn [feed]. intros H. injection H as _ H. auto.
+  - destruct (y =? 10).
+    + destruct (feed [] (a ++ [10])) as [ls' p'] eqn:E'. intros H. injection H as _ H. subst p'. eapply IH; eauto.
+    + apply IH.
+Qed.
+Theorem patch_zero_read_at_boundary a rest : hash_patch_pre (EData (a ++ [10]) :: EData [] :: rest) = hash_patch_pre [EData (a ++ [10])].
+Proof.
+  unfold hash_patch_pre. destruct (a ++ [10]) as [|x c] eqn:Ea; [destruct a; discriminate|]. rewrite !patch_lines_data.
+  destruct (feed [] (x :: c)) as [ls p] eqn:E. rewrite <- Ea in E. apply feed_ends_nl in E. subst p. reflexivity.
+Qed.
+
 Definition keep (l : str) : bool := negb (contains netbsd l).
 Lemma split_lines_term ls : Forall (fun l => mem 10 l = false) ls -> split_lines (nl_term ls) = ls.
 Proof. intros H. unfold split_lines. rewrite split_on_nl_term by auto. rewrite last_last, removelast_last. reflexivity. Qed.
